@@ -8,6 +8,7 @@ errors; single-character mutations of valid texts; nesting exactly at and just b
 recursion budget (measured through the real unpack)."""
 import json
 import random
+import re
 
 from harness import common as C
 
@@ -248,6 +249,8 @@ def run_text(rep, prop_id, tier, seed, support_ok, view_class_only=False):
         v = random_value(rng)
         try:
             t = json.dumps(v, separators=(",", ":"))
+            if re.search(r"(?<![\d.])-0\.0(?![\d])", t):
+                continue        # the model's numbers have no negative zero (DESIGN.md section 7)
             back = json.loads(t)
             dterms.append("mkD %s %s" % (C.cjson(back), C.cs(t)))
             dmeta.append({"kind": "dumps", "text": t})
